@@ -56,6 +56,10 @@ def _pattern_test(p, subj):
         return ast.Compare(left=L(), ops=[ast.Is()], comparators=[ast.Constant(value=p.value)]), []
     if isinstance(p, ast.MatchClass) and not p.patterns and not p.kwd_patterns:
         return ast.Call(func=ast.Name(id="isinstance", ctx=ast.Load()), args=[L(), p.cls], keywords=[]), []
+    if isinstance(p, ast.MatchOr) and all(isinstance(q, ast.MatchClass) and not q.patterns and not q.kwd_patterns for q in p.patterns):
+        # case A() | B():  ==  isinstance(subject, (A, B))
+        tup = ast.Tuple(elts=[q.cls for q in p.patterns], ctx=ast.Load())
+        return ast.Call(func=ast.Name(id="isinstance", ctx=ast.Load()), args=[L(), tup], keywords=[]), []
     if isinstance(p, ast.MatchOr):
         tests = []
         for q in p.patterns:
@@ -369,8 +373,43 @@ class Desugar(ast.NodeTransformer):
             elif isinstance(old, ast.expr):
                 setattr(stmt, field, self.visit_expr(old))
 
+    def _comprehend(self, stmts):
+        """`T = []` directly followed by `for v in it: [if c:] T.append(elt)` is the list comprehension it spells out"""
+        out, i = [], 0
+        while i < len(stmts):
+            a = stmts[i]
+            b = stmts[i + 1] if i + 1 < len(stmts) else None
+            new = None
+            if isinstance(a, ast.Assign) and len(a.targets) == 1 and isinstance(a.targets[0], ast.Name) \
+                    and ((isinstance(a.value, ast.List) and not a.value.elts)
+                         or (isinstance(a.value, ast.Call) and isinstance(a.value.func, ast.Name) and a.value.func.id == "list"
+                             and not a.value.args and not a.value.keywords)) \
+                    and isinstance(b, ast.For) and not b.orelse and len(b.body) == 1:
+                name = a.targets[0].id
+                inner, conds = b.body[0], []
+                while isinstance(inner, ast.If) and not inner.orelse and len(inner.body) == 1:
+                    conds.append(inner.test)
+                    inner = inner.body[0]
+                if isinstance(inner, ast.Expr) and isinstance(inner.value, ast.Call) and isinstance(inner.value.func, ast.Attribute) \
+                        and inner.value.func.attr == "append" and isinstance(inner.value.func.value, ast.Name) \
+                        and inner.value.func.value.id == name and len(inner.value.args) == 1 and not inner.value.keywords:
+                    elt = inner.value.args[0]
+                    mentions = any(isinstance(x, ast.Name) and x.id == name for part in [b.iter, elt] + conds for x in ast.walk(part))
+                    if not mentions:
+                        comp = ast.ListComp(elt=elt, generators=[ast.comprehension(target=b.target, iter=b.iter, ifs=conds, is_async=0)])
+                        new = ast.copy_location(ast.Assign(targets=[ast.Name(id=name, ctx=ast.Store())], value=ast.copy_location(comp, b)), a)
+                        self.notes.append(f"list built by an append loop at line {a.lineno} read as a comprehension")
+            if new is not None:
+                out.append(new)
+                i += 2
+            else:
+                out.append(a)
+                i += 1
+        return out
+
     def _block(self, stmts):
         out = []
+        stmts = self._comprehend(list(stmts))
         for s in stmts:
             if isinstance(s, ast.For):
                 u = _unroll(s, self.tables, self.outside[-1].get(id(s), set()) if isinstance(self.outside[-1], dict) else set())
@@ -474,6 +513,11 @@ class Desugar(ast.NodeTransformer):
         return r if r is not None else node
 
     def visit_FunctionDef(self, node):
+        # positional-only markers restrict how a function may be called, not what it does: the engines read one list
+        if node.args.posonlyargs:
+            node.args.args = list(node.args.posonlyargs) + list(node.args.args)
+            node.args.posonlyargs = []
+            self.notes.append(f"positional-only parameters of {node.name} read as ordinary parameters")
         # names used outside each for loop of this function (a loop variable that is read after its loop keeps the
         # last row's value: such a loop is not unrolled)
         loops = [n for n in ast.walk(node) if isinstance(n, ast.For)]
